@@ -133,7 +133,7 @@ func Execute(t *testing.T, p *Plan, keepTrace bool) (res *Result) {
 	cryptotest.SetGlobalRandom(t, p.Seed)
 	mrand.Seed(int64(p.Seed))
 	gcCounter++
-	if gcCounter%20 == 0 {
+	if gcCounter%20 == 0 && !p.Free {
 		debug.SetGCPercent(-1)
 		runtime.GC()
 	}
